@@ -90,7 +90,9 @@ func (l *Lexer) nextInsideToken() token.Token {
 				tok.Type = "INT"
 			}
 
-			break
+			// readNumber already stands on the character after the number
+			tok.LineNumber = startLine
+			return tok
 		}
 		tok = l.newToken(token.DOT)
 	case '+':
